@@ -38,6 +38,57 @@ INPUT_SIGS = {
                 res == is_prefix(string.spec_bytes(), rest(old(self).ctx(), old(self).off())),
                 res ==> final(self).off() == old(self).off() + string.spec_bytes().len(),
                 !res ==> final(self).off() == old(self).off(),'''),
+    'get': ("fn get(&self) -> (r: &'i str)", '''
+        requires input_inv(self.ctx(), self.off()),
+        ensures r.spec_bytes() == rest(self.ctx(), self.off()),'''),
+    'cursor': ("unsafe fn cursor(&mut self) -> (r: &mut usize)", '''
+        ensures *r == old(self).off(), final(self).off() == *final(r), final(self).ctx() == old(self).ctx(),'''),
+    'as_position': ("fn as_position(&self) -> (r: Position<'i>)", '''
+        requires input_inv(self.ctx(), self.off()),
+        ensures r.input == self.ctx().input, r.pos == self.off(),'''),
+    'match_insensitive': ("fn match_insensitive(&mut self, string: &'i str) -> (res: bool)", '''
+        requires input_inv(old(self).ctx(), old(self).off()),
+        ensures final(self).ctx() == old(self).ctx(), input_inv(final(self).ctx(), final(self).off()),
+                res == insens_prefix(string.spec_bytes(), rest(old(self).ctx(), old(self).off())),
+                res ==> final(self).off() == old(self).off() + string.spec_bytes().len(),
+                !res ==> final(self).off() == old(self).off(),'''),
+    'match_range': ("fn match_range(&mut self, range: Range<char>) -> (res: bool)", '''
+        requires input_inv(old(self).ctx(), old(self).off()),
+        ensures final(self).ctx() == old(self).ctx(), input_inv(final(self).ctx(), final(self).off()),
+                res == match first_char(rest(old(self).ctx(), old(self).off())) { Some(c) => range.start <= c && c <= range.end, None => false },
+                res ==> final(self).off() == old(self).off() + char_len(first_char(rest(old(self).ctx(), old(self).off()))->0),
+                !res ==> final(self).off() == old(self).off(),'''),
+    'next': ("fn next(&mut self) -> (res: Option<char>)", '''
+        requires input_inv(old(self).ctx(), old(self).off()),
+        ensures final(self).ctx() == old(self).ctx(), input_inv(final(self).ctx(), final(self).off()),
+                res == first_char(rest(old(self).ctx(), old(self).off())),
+                res is Some ==> final(self).off() == old(self).off() + char_len(res->0),
+                res is None ==> final(self).off() == old(self).off(),'''),
+    'match_char_by': ("fn match_char_by(&mut self, f: impl FnOnce(char) -> bool) -> (res: bool)", '''
+        requires input_inv(old(self).ctx(), old(self).off()),
+                 forall|c: char| f.requires((c,)),
+        ensures final(self).ctx() == old(self).ctx(), input_inv(final(self).ctx(), final(self).off()),
+                match first_char(rest(old(self).ctx(), old(self).off())) {
+                    Some(c) => f.ensures((c,), res) && (res ==> final(self).off() == old(self).off() + char_len(c)),
+                    None => !res,
+                },
+                !res ==> final(self).off() == old(self).off(),'''),
+    'skip': ("fn skip(&mut self, n: usize) -> (res: bool)", '''
+        requires input_inv(old(self).ctx(), old(self).off()),
+        ensures final(self).ctx() == old(self).ctx(), input_inv(final(self).ctx(), final(self).off()),
+                match skip_chars(rest(old(self).ctx(), old(self).off()), n as nat) {
+                    Some(k) => res && final(self).off() == old(self).off() + k,
+                    None => !res && final(self).off() == old(self).off(),
+                },'''),
+    'skip_until': ("fn skip_until(&mut self, strings: &'i [&'i str]) -> (res: bool)", '''
+        requires input_inv(old(self).ctx(), old(self).off()),
+        ensures final(self).ctx() == old(self).ctx(), input_inv(final(self).ctx(), final(self).off()),
+                final(self).off() >= old(self).off(),
+                // stops at the least boundary offset at which one of the needles is a prefix of the *remaining
+                // input* (cut at the end of the sub-input: nothing at or beyond `end` may influence the outcome)
+                res ==> needle_at(old(self).ctx(), strings@, final(self).off()) && final(self).off() < old(self).ctx().end,
+                !res ==> final(self).off() == old(self).ctx().end,
+                forall|k: nat| old(self).off() <= k < final(self).off() ==> !needle_at(old(self).ctx(), strings@, k),'''),
 }
 
 
@@ -180,6 +231,37 @@ pub broadcast group group_stack {
     lemma_snaps_wf_push, lemma_snaps_wf_drop_last, lemma_snaps_wf_last,
 }
 pub type Res<'i> = Option<(nat, Seq<Span<'i>>)>;
+pub struct Position<'i> { pub input: &'i str, pub pos: usize }
+pub open spec fn ascii_lower(b: u8) -> u8 { if 65 <= b <= 90 { (b + 32) as u8 } else { b } }
+pub open spec fn eq_ignore_case(a: Seq<u8>, b: Seq<u8>) -> bool {
+    a.len() == b.len() && forall|k: int| 0 <= k < a.len() ==> ascii_lower(#[trigger] a[k]) == ascii_lower(b[k])
+}
+// the remaining input has a prefix, ending on a character boundary, that equals `s` ignoring ASCII case
+pub open spec fn insens_prefix(s: Seq<u8>, r: Seq<u8>) -> bool {
+    s.len() <= r.len() && is_char_boundary(r, s.len() as int) && eq_ignore_case(r.subrange(0, s.len() as int), s)
+}
+// first scalar value of a byte string: the char whose UTF-8 encoding is a prefix of it (unique: UTF-8 is prefix-free)
+pub open spec fn starts_with_char(b: Seq<u8>, c: char) -> bool { is_prefix(encode_scalar(c as u32), b) }
+pub open spec fn first_char(b: Seq<u8>) -> Option<char> {
+    if exists|c: char| starts_with_char(b, c) { Some(choose|c: char| starts_with_char(b, c)) } else { None }
+}
+pub open spec fn char_len(c: char) -> nat { encode_scalar(c as u32).len() }
+// byte length of the first n scalar values of b, None if b has fewer than n
+pub open spec fn skip_chars(b: Seq<u8>, n: nat) -> Option<nat>
+    decreases n
+{
+    if n == 0 { Some(0) } else {
+        match first_char(b) {
+            None => None,
+            Some(c) => if char_len(c) > b.len() { None } else {
+                match skip_chars(b.subrange(char_len(c) as int, b.len() as int), (n - 1) as nat) { None => None, Some(k) => Some(char_len(c) + k) } },
+        }
+    }
+}
+pub open spec fn needle_at(c: Ctx, needles: Seq<&str>, k: nat) -> bool {
+    k <= c.end && is_char_boundary(bytes_of(c), k as int)
+    && exists|j: int| 0 <= j < needles.len() && is_prefix((#[trigger] needles[j]).spec_bytes(), rest(c, k))
+}
 
 '''
 
